@@ -10,6 +10,27 @@ TRUST = ("Trusted base: the Go type checker and go/ssa (x/tools v0.29.0) as a fa
 
 # id -> (technique, level text, level_note, design_ref)
 CLAIMED = {
+    "C02": (
+        "CFG path queries + access-path origin analysis of InjectDevices and Append on go/ssa",
+        "Decides, for all paths of InjectDevices and Append, the structural skeleton of 'ordered composition': complete in-order request loop, verbatim lookup, "
+        "device edits appended on every resolving path, Spec-level edits only under a first-time test keyed by Spec identity on a per-call set and before the device's edits, "
+        "Append arguments originate only from the looked-up device or its Spec, one Apply after the loop with its error propagated, Append = field-wise receiver-first concatenation "
+        "covering every field. Necessary conditions of the property for every request; not the behavioural equality with a combined edit list.",
+        TRUST + "Does not decide: that Apply of the concatenation equals sequential application (C03 / OCI generator); cache contents (C01).",
+        "DESIGN.md §4 C02"),
+    "C04": (
+        "path-sensitive CFG enumeration with phi resolution + interprocedural write-effect analysis",
+        "Decides for every feasible control-flow path of InjectDevices (two loop iterations, nil-branches pruned by resolving values along the path) that a lookup miss and an "
+        "instruction able to write the OCI spec never occur together, that the nil-spec guard precedes all uses and returns (names, error), and that misses are collected verbatim, "
+        "in request order, into the list returned with the error.",
+        TRUST + "Write sites come from an over-approximating effect analysis through Apply and the OCI generator's source. Does not decide partial application when Apply fails midway.",
+        "DESIGN.md §4 C04"),
+    "C14": (
+        "interprocedural write-effect analysis over access paths (field-based origins, callee heap stores refined), global read/write inventory",
+        "Decides for the injection entry points that no write can reach memory of a loaded Spec (fields of specs-go types or of the cdi.Spec/Device wrappers) or any package-level state, "
+        "that the edit accumulator is allocated per call, and that missing host information is looked up in the same call - for every path and every callee, including the OCI generator's source.",
+        TRUST + "Does not decide: aliasing created into the OCI spec (toOCI shares slices/pointers by reference); behaviour under host node changes.",
+        "DESIGN.md §4 C14"),
     "C12": (
         "static must-hold lockset analysis on go/ssa + interprocedural lock-requirement summaries + write-effect analysis over access paths",
         "Decides the locking structure of pkg/cdi for every entry point and call path (not for sampled schedules): every access to Cache/watch fields, "
